@@ -7,6 +7,10 @@ Exhaustive sweeps of the domain shared with `datetime`:
   times      every second of the day (86,400) x a fraction alphabet, for extended_iso / long_extended_iso / general_iso:
              text shape, stdlib reader (truncating beyond microseconds), an own regular-grammar decoder for all nine
              digits, and the stdlib writer's texts ('.', ',' and millisecond/microsecond forms) parsed back
+  fractions  digit-dependent sweep at one fixed second: ALL 1,000,000 microsecond values (text as time.isoformat() writes
+             it), every nanosecond value below 100,000, every d*10^k and its neighbours, and a 1-in-997 stride over all
+             10^9 nanosecond values - both directions through extended_iso against exact integer arithmetic, strides
+             through long_extended_iso and the LocalDateTime / Instant ISO patterns
   datetimes  boundary dates x boundary times for LocalDateTimePattern.general_iso / extended_iso / bcl_round_trip and
              InstantPattern.general / extended_iso (must end in 'Z'; stdlib reads an aware UTC datetime)
   offsets    every whole minute in +/-18 h (plus a seconds alphabet) for OffsetPattern.general_invariant(_with_z)
@@ -33,7 +37,7 @@ LEVEL = "model_checking"
 MAX_ORD = dt.date.max.toordinal()          # 3652059
 DATE_RE = re.compile(r"^\d{4}-\d{2}-\d{2}$")
 TIME_RE = re.compile(r"^(\d{2}):(\d{2}):(\d{2})(?:\.(\d{1,9}))?$")
-FRACTIONS = (0, 1, 1_000, 1_000_000, 100_000_000, 500_000_000, 123_456_789, 999_999_999, 120_000_000, 999_999_000)
+FRACTIONS = (0, 1, 1_000, 1_000_000, 500_000_000, 123_456_789, 999_999_999)   # x every second; the dense digit sweep is part 'fractions'
 UTC = dt.timezone.utc
 
 
@@ -193,6 +197,114 @@ def time_worker(hour):
     acc.outcome("time: shapes, stdlib reader and stdlib-written texts agree", acc.nontrivial)
     if hour == 12:
         acc.sample({"time": (12, 34, 56, 123_456_789), "extended_iso": ext.format(LocalTime.from_hour_minute_second_nanosecond(12, 34, 56, 123_456_789))})
+    return acc
+
+
+# ---------------------------------------------------------------------------------------------------------------
+# fractions: dense, digit-dependent sweep at one fixed second (12:34:56)
+# ---------------------------------------------------------------------------------------------------------------
+
+FH, FM, FS = 12, 34, 56
+FPREFIX = "12:34:56"
+NS_STRIDE = 997
+POW_VALUES = tuple(sorted({v for k in range(9) for d in range(1, 10) for v in (d * 10**k - 1, d * 10**k, d * 10**k + 1)
+                           if 0 <= v < 10**9} | {10**9 - 1, 10**9 - 2}))
+
+
+def frac_text(ns):
+    """The ISO fraction text for ns nanoseconds without trailing zeros ('' for 0) - written with integer arithmetic."""
+    if ns == 0:
+        return ""
+    return "." + ("%09d" % ns).rstrip("0")
+
+
+def _fraction_case(acc, ns, idx, via_stdlib):
+    """Both directions for one nanosecond-of-second value through extended_iso; strides through the other patterns."""
+    ext = LocalTimePattern.extended_iso
+    acc.count(states=1)
+    case = {"fraction_ns": ns}
+    lt = LocalTime.from_hour_minute_second_nanosecond(FH, FM, FS, ns)
+    exp = FPREFIX + frac_text(ns)
+    digits = len(exp) - len(FPREFIX) - 1 if ns else 0
+    # format direction
+    t = guard(acc, "C17/fraction/extended_iso/format", case, lambda: ext.format(lt))
+    acc.count(transitions=1, evaluations=1)
+    ok = True
+    if t is not None and t != exp:
+        ok = False
+        acc.violation("C17/fraction/extended_iso/format/digits=%d" % digits, "extended_iso.format(12:34:56 + %d ns) = %r, ISO text is %r" % (ns, t, exp), case)
+    # parse direction: the text an ISO writer produces (the standard library's own text for whole microseconds)
+    texts = [exp]
+    if via_stdlib:
+        texts = [dt.time(FH, FM, FS, ns // 1000).isoformat()]      # six digits, trailing zeros kept
+    for st in texts:
+        r = guard(acc, "C17/fraction/extended_iso/parse", dict(case, text=st), lambda: ext.parse(st))
+        acc.count(transitions=1, evaluations=1)
+        if r is not None and not (r.success and r.value.nanosecond_of_second == ns and r.value == lt):
+            ok = False
+            got = r.value.nanosecond_of_second if r.success else "failure"
+            acc.violation("C17/fraction/extended_iso/parse/digits=%d" % (len(st) - len(FPREFIX) - 1 if "." in st else 0),
+                          "extended_iso.parse(%r) -> %s ns, the text says %d ns" % (st, got, ns), dict(case, text=st),
+                          py="from pyoda_time.text import LocalTimePattern\n\ndef test_replay():\n"
+                             "    assert LocalTimePattern.extended_iso.parse(%r).value.nanosecond_of_second == %d\n" % (st, ns))
+    if idx % 8 == 0:
+        long_ = LocalTimePattern.long_extended_iso
+        exp9 = FPREFIX + ".%09d" % ns
+        t9 = guard(acc, "C17/fraction/long_extended_iso/format", case, lambda: long_.format(lt))
+        r9 = guard(acc, "C17/fraction/long_extended_iso/parse", dict(case, text=exp9), lambda: long_.parse(exp9))
+        acc.count(transitions=2, evaluations=2)
+        if t9 is not None and t9 != exp9:
+            ok = False
+            acc.violation("C17/fraction/long_extended_iso/format", "long_extended_iso.format(%d ns) = %r, expected %r" % (ns, t9, exp9), case)
+        if r9 is not None and not (r9.success and r9.value.nanosecond_of_second == ns):
+            ok = False
+            acc.violation("C17/fraction/long_extended_iso/parse", "long_extended_iso.parse(%r) -> %s ns" % (exp9, r9.value.nanosecond_of_second if r9.success else "failure"),
+                          dict(case, text=exp9))
+    if idx % 64 == 0:
+        dtext = "2024-02-29T" + exp
+        ldt = LocalDate(2024, 2, 29) + lt
+        ins = Instant.from_utc(2024, 2, 29, FH, FM, FS).plus_nanoseconds(ns)
+        for name, pat, text, val in (("datetime/extended_iso", LocalDateTimePattern.extended_iso, dtext, ldt),
+                                     ("instant/extended_iso", InstantPattern.extended_iso, dtext + "Z", ins)):
+            tt = guard(acc, "C17/fraction/%s/format" % name, case, lambda: pat.format(val))
+            rr = guard(acc, "C17/fraction/%s/parse" % name, dict(case, text=text), lambda: pat.parse(text))
+            acc.count(transitions=2, evaluations=2)
+            if tt is not None and tt != text:
+                ok = False
+                acc.violation("C17/fraction/%s/format" % name, "%s.format = %r, expected %r" % (name, tt, text), case)
+            if rr is not None and not (rr.success and rr.value == val):
+                ok = False
+                acc.violation("C17/fraction/%s/parse" % name, "%s.parse(%r) fails or differs by the fraction" % (name, text), dict(case, text=text))
+        if ns % 100 == 0:
+            btext = "2024-02-29T%s.%07d" % (FPREFIX, ns // 100)
+            rb = guard(acc, "C17/fraction/datetime/bcl_round_trip/parse", dict(case, text=btext), lambda: LocalDateTimePattern.bcl_round_trip.parse(btext))
+            tb = guard(acc, "C17/fraction/datetime/bcl_round_trip/format", case, lambda: LocalDateTimePattern.bcl_round_trip.format(ldt))
+            acc.count(transitions=2, evaluations=2)
+            if tb is not None and tb != btext or rb is not None and not (rb.success and rb.value == ldt):
+                ok = False
+                acc.violation("C17/fraction/datetime/bcl_round_trip", "bcl_round_trip: %r / %r for %d ns" % (tb, btext, ns), dict(case, text=btext))
+    if ok:
+        acc.count(nontrivial=1)
+
+
+def fraction_worker(task):
+    mode, lo, hi = task
+    acc = Acc()
+    if mode == "us":                       # every microsecond value, text as written by time.isoformat()
+        for us in range(lo, hi):
+            _fraction_case(acc, us * 1000, us, True)
+    elif mode == "ns-low":                 # every nanosecond value below 100,000
+        for ns in range(lo, hi):
+            _fraction_case(acc, ns, ns, False)
+    elif mode == "ns-stride":              # 1-in-997 stride over all 10^9
+        for i in range(lo, hi):
+            _fraction_case(acc, i * NS_STRIDE, i, False)
+    else:                                  # d*10^k and neighbours
+        for i, ns in enumerate(POW_VALUES):
+            _fraction_case(acc, ns, i * 8, False)
+    acc.outcome("fraction: exact in both directions", acc.nontrivial)
+    if mode == "us" and lo == 0:
+        acc.sample({"fraction": "12:34:56.000065", "parsed_ns": LocalTimePattern.extended_iso.parse("12:34:56.000065").value.nanosecond_of_second})
     return acc
 
 
@@ -432,6 +544,15 @@ def run(ctx):
     if not only or "times" in only:
         for acc in pmap(time_worker, rotate(range(24), ctx.seed)):
             ctx.merge_part("times", acc)
+    if not only or "fractions" in only:
+        tasks = [("us", a, b) for a, b in chunks(0, 1_000_000, 25_000)]
+        tasks += [("ns-low", a, b) for a, b in chunks(0, 100_000, 25_000)]
+        nstride = (10**9 + NS_STRIDE - 1) // NS_STRIDE
+        tasks += [("ns-stride", a, b) for a, b in chunks(0, nstride, 25_000)]
+        tasks += [("pow", 0, 0)]
+        for acc in pmap(fraction_worker, rotate(tasks, ctx.seed)):
+            ctx.merge_part("fractions", acc)
+        ctx.note("fraction_space", {"microseconds": 1_000_000, "ns_below_100000": 100_000, "ns_stride_997": nstride, "powers": len(POW_VALUES)})
     if not only or "datetimes" in only:
         for acc in pmap(datetime_worker, range(4)):
             ctx.merge_part("datetimes", acc)
@@ -455,6 +576,11 @@ def replay(rec) -> bool:
     found = {}
     if "ordinal" in case:
         found.update(date_worker((case["ordinal"], case["ordinal"] + 1)).violations)
+    elif "fraction_ns" in case:
+        a = Acc()
+        _fraction_case(a, case["fraction_ns"], 0, case["fraction_ns"] % 1000 == 0)
+        _fraction_case(a, case["fraction_ns"], 0, False)
+        found.update(a.violations)
     elif "time" in case:
         found.update(time_worker(case["time"][0]).violations)
     elif "datetime" in case:
